@@ -34,6 +34,8 @@ pub struct SeqParams {
     pub wall_cap_s: f64,
     pub threads: usize,
     pub seed: u64,
+    /// C13: histories up to this length are re-run with a reopen at every subset of positions
+    pub reopen_subsets_up_to: usize,
 }
 
 #[derive(Clone, Debug)]
@@ -83,6 +85,7 @@ pub struct Stats {
     pub outcomes: BTreeMap<String, u64>,
     pub max_depth_done: usize,
     pub http_responses: u64,
+    pub reopen_subsets: u64,
     pub monitor_evals: BTreeMap<&'static str, u64>,
 }
 
@@ -97,6 +100,7 @@ impl Stats {
         self.solo_runs += o.solo_runs;
         self.collateral += o.collateral;
         self.http_responses += o.http_responses;
+        self.reopen_subsets += o.reopen_subsets;
         for (k, v) in &o.outcomes {
             *self.outcomes.entry(k.clone()).or_insert(0) += v;
         }
@@ -910,6 +914,41 @@ impl Worker {
             }
         }
 
+        // ---- C13: closing and reopening the database between any two requests changes no
+        //      response: the history again with a reopen at every subset of its positions
+        //      (short histories; longer ones are covered by never / before-every-request / here)
+        if self.mon("C13") && !node.steps.is_empty() && node.steps.len() <= self.params.reopen_subsets_up_to {
+            if let Some(i) = (0..nsut).find(|&i| self.suts[i].sut.spec.is_sql() && !self.suts[i].sut.spec.is_http() && !self.suts[i].sut.spec.reopen_each && !sts[i].diverged) {
+                let d = node.steps.len();
+                for mask in 1u32..(1 << d) {
+                    stats.eval("C13");
+                    stats.reopen_subsets += 1;
+                    self.suts[i].reset();
+                    let mut m = Model::new(self.params.cfg);
+                    for (k, st) in node.steps.iter().enumerate() {
+                        if mask & (1 << k) != 0 {
+                            if let Err(e) = self.suts[i].sut.reopen() {
+                                find!("C13", i, "reopen-failed", None, "reopening the database before step {k} failed: {e}");
+                                break;
+                            }
+                        }
+                        let r = exec(&mut self.suts[i], &m, &st.sop, st.new_sid);
+                        if let Expect::Snapshot(_) = model_step(&mut m, &st.sop) {
+                            if let (SymOp::AddSnapshot { c, v, data }, Some(rep)) = (&st.sop, st.replaced) {
+                                m.add_snapshot_apply(*c, *v, data, rep);
+                            }
+                        }
+                        if r != sts[i].responses[k] {
+                            find!("C13", i, "reopen-subset-changes-answer", Some(st.aop.show()),
+                                "with the database reopened before steps {:?}, step {k} ({}) answered {:?}; without any reopen it answered {:?}",
+                                (0..d).filter(|x| mask & (1 << x) != 0).collect::<Vec<_>>(), st.aop.show(), r, sts[i].responses[k]);
+                            break;
+                        }
+                    }
+                }
+                self.restore(i, node, &mut sts[i]);
+            }
+        }
         // ---- 3. transitions
         let mut children: Vec<(String, Node)> = vec![];
         if prune || node.steps.len() >= self.params.max_depth {
@@ -1288,7 +1327,7 @@ pub fn params_to_json(p: &SeqParams) -> Value {
         "specs": p.specs.iter().map(|s| s.name()).collect::<Vec<_>>(),
         "max_depth": p.max_depth, "unmerged_depth": p.unmerged_depth, "monitors": p.monitors,
         "reopen_probe": p.reopen_probe, "solo_runs": p.solo_runs, "max_states": p.max_states,
-        "wall_cap_s": p.wall_cap_s, "threads": p.threads, "seed": p.seed,
+        "wall_cap_s": p.wall_cap_s, "threads": p.threads, "seed": p.seed, "reopen_subsets_up_to": p.reopen_subsets_up_to,
     })
 }
 
@@ -1313,6 +1352,7 @@ pub fn params_from_json(v: &Value) -> SeqParams {
         wall_cap_s: v["wall_cap_s"].as_f64().unwrap(),
         threads: v["threads"].as_u64().unwrap() as usize,
         seed: v["seed"].as_u64().unwrap(),
+        reopen_subsets_up_to: v["reopen_subsets_up_to"].as_u64().unwrap_or(0) as usize,
     }
 }
 
@@ -1347,7 +1387,7 @@ fn finding_from_json(v: &Value) -> Finding {
 fn stats_to_json(s: &Stats) -> Value {
     json!({
         "states": s.states, "transitions": s.transitions, "impl_transitions": s.impl_transitions, "probes": s.probes,
-        "replays": s.replays, "solo_runs": s.solo_runs, "collateral": s.collateral, "http_responses": s.http_responses,
+        "replays": s.replays, "solo_runs": s.solo_runs, "collateral": s.collateral, "http_responses": s.http_responses, "reopen_subsets": s.reopen_subsets,
         "outcomes": s.outcomes, "monitor_evals": s.monitor_evals.iter().map(|(k, v)| (k.to_string(), *v)).collect::<BTreeMap<String, u64>>(),
     })
 }
@@ -1363,6 +1403,7 @@ fn stats_from_json(v: &Value) -> Stats {
     s.solo_runs = g("solo_runs");
     s.collateral = g("collateral");
     s.http_responses = g("http_responses");
+    s.reopen_subsets = g("reopen_subsets");
     if let Some(o) = v["outcomes"].as_object() {
         for (k, x) in o {
             s.outcomes.insert(k.clone(), x.as_u64().unwrap_or(0));
